@@ -1,5 +1,5 @@
 ---- MODULE MC_Reorder3 ----
 EXTENDS BDDSpec
 N3 == <<"a", "b", "c">>
-ReorderActions == {"var", "apply", "drop", "swap", "reorder", "sift", "pairs"}
+ReorderActions == {"var", "build", "apply", "drop", "swap", "reorder", "sift", "pairs"}
 ====
